@@ -23,8 +23,10 @@
    - F-C16c: a response that cannot be decoded, and an ADD_PROVIDER message received as a
      "response", register a response failure for the owning query;
    - F-C16d: on_connection_established records the substreams it opens in pending_substreams.
-   Logical time: all next_action calls happen at time 0 with an unreachable peer timeout (the
-   staleness rule of FIND_NODE is C15's subject). *)
+   Logical time: the state carries a clock `now`; `ETick d` lets d time units pass; every
+   next_action call of the drain loop happens at the current time, and a FIND_NODE-type lookup does
+   not count a pending peer that is older than the peer timeout `g_tmo` towards the parallelism
+   factor (the staleness rule of C15's model, now inside the composition). *)
 From Coq Require Import List NArith Bool.
 From V.C15 Require Model.
 Import ListNotations.
@@ -95,22 +97,25 @@ Record st := mkSt {
   futs : list fut;
   nsid : N;                                 (* TransportService::next_substream_id *)
   conn : list (N * bool);                   (* service connections; true = command channel alive *)
-  mgr : list (N * N)                        (* manager: absent/0 no address, 1 dialable, 2 connected, 3 dialing *)
+  mgr : list (N * N);                       (* manager: absent/0 no address, 1 dialable, 2 connected, 3 dialing *)
+  now : N                                   (* the clock *)
 }.
 
-Definition st0 (m : list (N * N)) : st := mkSt [] [] [] [] [] 0 [] m.
+Definition st0 (m : list (N * N)) : st := mkSt [] [] [] [] [] 0 [] m 0.
 
-Definition w_eng (s : st) x := mkSt x (peers s) (psub s) (pdial s) (futs s) (nsid s) (conn s) (mgr s).
-Definition w_peers (s : st) x := mkSt (eng s) x (psub s) (pdial s) (futs s) (nsid s) (conn s) (mgr s).
-Definition w_psub (s : st) x := mkSt (eng s) (peers s) x (pdial s) (futs s) (nsid s) (conn s) (mgr s).
-Definition w_pdial (s : st) x := mkSt (eng s) (peers s) (psub s) x (futs s) (nsid s) (conn s) (mgr s).
-Definition w_futs (s : st) x := mkSt (eng s) (peers s) (psub s) (pdial s) x (nsid s) (conn s) (mgr s).
-Definition w_nsid (s : st) x := mkSt (eng s) (peers s) (psub s) (pdial s) (futs s) x (conn s) (mgr s).
-Definition w_conn (s : st) x := mkSt (eng s) (peers s) (psub s) (pdial s) (futs s) (nsid s) x (mgr s).
-Definition w_mgr (s : st) x := mkSt (eng s) (peers s) (psub s) (pdial s) (futs s) (nsid s) (conn s) x.
+Definition w_eng (s : st) x := mkSt x (peers s) (psub s) (pdial s) (futs s) (nsid s) (conn s) (mgr s) (now s).
+Definition w_peers (s : st) x := mkSt (eng s) x (psub s) (pdial s) (futs s) (nsid s) (conn s) (mgr s) (now s).
+Definition w_psub (s : st) x := mkSt (eng s) (peers s) x (pdial s) (futs s) (nsid s) (conn s) (mgr s) (now s).
+Definition w_pdial (s : st) x := mkSt (eng s) (peers s) (psub s) x (futs s) (nsid s) (conn s) (mgr s) (now s).
+Definition w_futs (s : st) x := mkSt (eng s) (peers s) (psub s) (pdial s) x (nsid s) (conn s) (mgr s) (now s).
+Definition w_nsid (s : st) x := mkSt (eng s) (peers s) (psub s) (pdial s) (futs s) x (conn s) (mgr s) (now s).
+Definition w_conn (s : st) x := mkSt (eng s) (peers s) (psub s) (pdial s) (futs s) (nsid s) x (mgr s) (now s).
+Definition w_mgr (s : st) x := mkSt (eng s) (peers s) (psub s) (pdial s) (futs s) (nsid s) (conn s) x (now s).
+Definition w_now (s : st) x := mkSt (eng s) (peers s) (psub s) (pdial s) (futs s) (nsid s) (conn s) (mgr s) x.
 
 (* static configuration of the node *)
-Record gcfg := mkG { g_k : N; g_alpha : N; g_local : N }.
+(* replication factor, parallelism factor, local peer, peer timeout of FIND_NODE-type lookups *)
+Record gcfg := mkG { g_k : N; g_alpha : N; g_local : N; g_tmo : N }.
 
 Definition BIG : N := 1000000000.
 
@@ -248,7 +253,7 @@ Definition serve (s : st) (q : N) : st * list out * bool :=
   match aget q (eng s) with
   | None => (s, [], false)
   | Some (QLookup lk qr c ls) =>
-      let '(ls', a) := V.C15.Model.next_action c ls 0 in
+      let '(ls', a) := V.C15.Model.next_action c ls (now s) in
       match a with
       | V.C15.Model.ANone => (s, [], false)
       | V.C15.Model.ASend p =>
@@ -277,13 +282,13 @@ Definition serve (s : st) (q : N) : st * list out * bool :=
   end.
 
 (* does next_action yield something for this query? *)
-Definition has_action (x : qstate) : bool :=
+Definition has_action (t : N) (x : qstate) : bool :=
   match x with
-  | QLookup _ _ c ls => match snd (V.C15.Model.next_action c ls 0) with V.C15.Model.ANone => false | _ => true end
+  | QLookup _ _ c ls => match snd (V.C15.Model.next_action c ls t) with V.C15.Model.ANone => false | _ => true end
   | QToPeers _ _ => true
   | QTrack _ pd _ _ => match pd with [] => true | _ => false end
   end.
-Definition quiescent (s : st) : bool := forallb (fun x => negb (has_action (snd x))) (eng s).
+Definition quiescent (s : st) : bool := forallb (fun x => negb (has_action (now s) (snd x))) (eng s).
 
 (* ---- service events ---- *)
 Definition on_connection_established (s : st) (p : N) : st :=
@@ -428,7 +433,7 @@ Inductive cmd :=
 Definition LOCAL_REC : N := 77.                  (* record id of the locally stored record *)
 
 Definition lcfg (g : gcfg) (kd : V.C15.Model.kind) (needed known : N) (dists : list N) : V.C15.Model.cfg :=
-  V.C15.Model.mkCfg kd (g_k g) (g_alpha g) BIG (g_local g) needed known []
+  V.C15.Model.mkCfg kd (g_k g) (g_alpha g) (g_tmo g) (g_local g) needed known []
           (fun p => nth (N.to_nat p) dists (BIG + p)).
 
 Definition start_lookup (g : gcfg) (s : st) (q : N) (lk : lkind) (qr : quorum) (c : V.C15.Model.cfg)
@@ -467,7 +472,8 @@ Inductive ev :=
 | EOpenFail (sid : N)
 | EDialFail (p : N)
 | EInbound (p id : N)
-| EFut (id : N) (r : fres).
+| EFut (id : N) (r : fres)
+| ETick (d : N).                                    (* d time units pass *)
 
 Definition is_serve (e : ev) : bool := match e with EServe _ => true | _ => false end.
 
@@ -500,6 +506,7 @@ Definition step (g : gcfg) (s : st) (e : ev) : st * list out * bool :=
   | EDialFail p => (on_dial_failure s p, [], quiescent s)
   | EInbound p id => (on_inbound_substream s p id, [], quiescent s)
   | EFut id r => let '(s', o) := on_future g s id r in (s', o, quiescent s)
+  | ETick d => (w_now s (now s + d), [], quiescent s)
   end.
 
 Fixpoint run (g : gcfg) (s : st) (es : list ev) : st * list out :=
@@ -681,11 +688,14 @@ Definition productive (s : st) (e : ev) : Prop :=
   | _ => False
   end.
 
-(* a schedule without new work in which every event is productive *)
+Definition is_tick (e : ev) : bool := match e with ETick _ => true | _ => false end.
+Definition work (es : list ev) : list ev := filter (fun e => negb (is_tick e)) es.
+
+(* a schedule without new work in which every event is productive, or time passing *)
 Fixpoint fair_run (g : gcfg) (s : st) (es : list ev) : Prop :=
   match es with
   | [] => True
-  | e :: t => is_input e = false /\ productive s e /\ fair_run g (fst (fst (step g s e))) t
+  | e :: t => is_input e = false /\ (is_tick e = true \/ productive s e) /\ fair_run g (fst (fst (step g s e))) t
   end.
 
 (* nothing productive is enabled any more *)
